@@ -203,15 +203,21 @@ def run_property(pid, tier):
             pending = sorted(q for q in called if q not in quals and verifiable(q))
         # a solver `unknown` under load is retried once with the machine to itself (few jobs at a time): `unknown` decides nothing,
         # and a verdict must not depend on how busy the 16 cores were while the first attempt ran
+        ctl = {}
+        for r in shard_results:
+            for o in r.get("obligations", []):
+                if o["kind"] == "control":
+                    ctl.setdefault(o["name"], []).append(o["verdict"])
+        starved = set(n for n, vs in ctl.items() if "sat" not in vs and any(v not in ("sat", "unsat") for v in vs))   # refutation timed out everywhere
         flaky = [i for i, r in enumerate(shard_results)
-                 if not r.get("error") and any(o["verdict"] not in ("unsat", "sat", "known") and o["kind"] not in ("control", "cover")
+                 if not r.get("error") and any(o["verdict"] not in ("unsat", "sat", "known") and (o["kind"] not in ("control", "cover") or o["name"] in starved)
                                                for o in r.get("obligations", []))]
         if flaky and not os.environ.get("VERIF_NO_RETRY"):
             jobs = [(shard_results[i]["qual"], thorough, shard_results[i]["shard"]) for i in flaky]
             with ctx.Pool(min(len(jobs), 4)) as pool:
                 again = pool.map(verify_one, jobs, chunksize=1)
             for i, r in zip(flaky, again):
-                und = lambda rr: sum(1 for o in rr.get("obligations", []) if o["verdict"] not in ("unsat", "sat", "known") and o["kind"] not in ("control", "cover"))
+                und = lambda rr: sum(1 for o in rr.get("obligations", []) if o["verdict"] not in ("unsat", "sat", "known") and (o["kind"] not in ("control", "cover") or o["name"] in starved))
                 n0 = und(shard_results[i])
                 n1 = und(r) if not r.get("error") else n0 + 1
                 if n1 < n0:
